@@ -442,6 +442,53 @@ func genUnit(r *rng, kind string, s string) unit {
 			sens("", fmt.Sprintf("def h_%s(x=1, y=(0.0, [1])):\n", s), fmt.Sprintf("def h_%s(x=1.0, y=(-0.0, [1.0])):\n", s), "default parameter values 1, 0.0 become 1.0, -0.0")
 		}
 		u.use = fmt.Sprintf("k_%s()", s)
+	case "hostkeys":
+		// hashable functions, builtins, bound methods, targets and structs as dict KEYS and set ELEMENTS (directly or inside a
+		// tuple key). functionEnv decodes what it encodes, and envUnpickler turns functions and structs into (unhashable) dicts:
+		// the decoder's dict.SetKey / set.Insert fails for them. Whatever the decoder does with that failure, the fingerprint
+		// must be computed without error, deterministically, and an edit to such a key must change it.
+		fns := fmt.Sprintf("def compile_%s():\n    return 1\ndef link_%s():\n    return 40030\n", s, s)
+		var val, old, new_, what string
+		switch r.below(7) {
+		case 0:
+			val = fmt.Sprintf("{compile_%s: \"c\", link_%s: \"l\"}", s, s)
+			old, new_, what = fmt.Sprintf("link_%s: \"l\"}", s), fmt.Sprintf("len: \"l\"}", ), "a function used as a dict key is replaced by a builtin"
+		case 1:
+			val = fmt.Sprintf("set([compile_%s, link_%s, len])", s, s)
+			old, new_, what = fmt.Sprintf("set([compile_%s, link_%s, len])", s, s), fmt.Sprintf("set([compile_%s, len])", s), "a function is removed from a set of functions"
+		case 2:
+			val = fmt.Sprintf("{(host, \"x\"): 40040, (len, 1): 2, (compile_%s, (link_%s,)): 3}", s, s)
+			old, new_, what = "(host, \"x\"): 40040", "(host, \"y\"): 40040", "string inside a tuple key that also holds a struct"
+		case 3:
+			val = "{len: 1, \"abc\".upper: 40040, str: 3, host: 4}"
+			old, new_, what = "\"abc\".upper: 40040", "\"abd\".upper: 40040", "receiver of a bound method used as a dict key"
+		case 4:
+			fns += fmt.Sprintf("@target()\ndef a_%s():\n    return None\n@target()\ndef b_%s():\n    return None\n", s, s)
+			u.ownDeps = []string{"a_" + s, "b_" + s}
+			val = fmt.Sprintf("[{a_%s: 40040}, set([a_%s, b_%s]), {(a_%s, compile_%s): 1}]", s, s, s, s, s)
+			old, new_, what = fmt.Sprintf("[{a_%s: 40040}", s), fmt.Sprintf("[{b_%s: 40040}", s), "which target is a dict key"
+		case 5:
+			val = fmt.Sprintf("{compile_%s: {link_%s: [set([compile_%s])]}, \"plain\": 40040}", s, s, s)
+			old, new_, what = "\"plain\": 40040", "\"plain\": 40041", "plain entry next to function keys"
+		default:
+			// a recursive function as a key of a dict it uses itself: the key is the in-progress marker
+			fns += fmt.Sprintf("M_%s = {}\ndef memo_%s(n):\n    return M_%s.get(memo_%s, 40040) if n <= 0 else memo_%s(n - 1)\nM_%s[memo_%s] = 1\nM_%s[(memo_%s, 2)] = 2\n", s, s, s, s, s, s, s, s, s)
+			val = fmt.Sprintf("[M_%s, memo_%s]", s, s)
+			old, new_, what = fmt.Sprintf("M_%s[(memo_%s, 2)] = 2\n", s, s), fmt.Sprintf("M_%s[(memo_%s, 3)] = 2\n", s, s), "tuple key holding the recursive function itself"
+		}
+		switch r.below(3) {
+		case 0:
+			u.defs = fns + fmt.Sprintf("G_%s = %s\ndef k_%s():\n    return len(G_%s)\n", s, val, s, s)
+		case 1:
+			u.defs = fns + fmt.Sprintf("def k_%s(x=%s):\n    return len(x)\n", s, val)
+		default:
+			u.defs = fns + fmt.Sprintf("def mk_%s():\n    c = %s\n    def inner():\n        return len(c)\n    return inner\nk_%s = mk_%s()\n", s, val, s, s)
+		}
+		u.use = fmt.Sprintf("k_%s()", s)
+		sens("", old, new_, what)
+		if strings.Contains(val, "link_"+s) {
+			sens("", fmt.Sprintf("def link_%s():\n    return 40030\n", s), fmt.Sprintf("def link_%s():\n    return 40031\n", s), "body of a function that is a dict key / set element")
+		}
 	case "sharedhelper":
 		// loaded by two packages; no nested load (a module in the middle of a nested load that is waited for by a
 		// second loader is defect D4 of the module loader, area Loader)
@@ -474,7 +521,7 @@ func (u *unit) rebase(k int) {
 var unitKinds = []string{"const", "const", "global", "container", "container", "container", "shared", "fact", "mutual", "closure",
 	"defaults", "nested", "cyclic", "cyclic", "deep", "deep", "predeclared", "environ", "flag", "targetref", "cache", "labels", "helper",
 	"fncontainer", "lambdacycle", "samename", "kwonly", "signature", "builtinalias", "values", "fnvalues", "codecycle",
-	"recshared", "recshared", "hashed", "hashed", "eqdistinct", "eqdistinct"}
+	"recshared", "recshared", "hashed", "hashed", "eqdistinct", "eqdistinct", "hostkeys", "hostkeys"}
 
 // Not generated: "freevarrec" (a nested function that calls itself through a free variable). Such a project
 // does not load: starlark.ExecFile freezes the module's globals and (*Function).Freeze / (*cell).Freeze of the
